@@ -601,6 +601,7 @@ type Pipe struct {
 	EOFAllowed bool
 	PostErr    error  // when set, returned once the released bytes are consumed
 	Garbage    []byte // when set, delivered after the released bytes (unrelated bytes)
+	Join       bool   // the garbage continues the SAME Read call that hands out the last released bytes
 	gpos       int
 	Chunks     []int
 	ci         int
@@ -649,6 +650,12 @@ func (p *Pipe) Read(b []byte) (int, error) {
 		}
 		copy(b, p.Buf[p.Pos:p.Pos+n])
 		p.Pos += n
+		if p.Join && p.Pos == p.Released && p.gpos < len(p.Garbage) && n < len(b) {
+			g := copy(b[n:], p.Garbage[p.gpos:])
+			p.gpos += g
+			p.Log.Ev(tid, EvSourceRead, n+g, 8, "pipe + garbage")
+			return n + g, nil
+		}
 		p.Log.Ev(tid, EvSourceRead, n, 0, "pipe")
 		return n, nil
 	}
